@@ -70,6 +70,9 @@ func parseNumber(input []byte) (int, bool) {
 				return 0, false
 			}
 		}
+		if !('0' <= s[0] && s[0] <= '9') {
+			return 0, false
+		}
 		for len(s) > 0 && '0' <= s[0] && s[0] <= '9' {
 			s = s[1:]
 			n++
